@@ -54,9 +54,11 @@ CLAIMED = {
    design="§5 C06"),
  "C07": dict(
    text="Theorems (Props/C07.lean): no proper prefix of a written file is accepted by a full read (truncated_rejected, from extension/consumption of blind skip-free reader programs), "
-        "appended bytes do not change the result (trailing_ignored). The windowed-stream clause (raises or equals the intact file's window) is covered by the correspondence and the oracle on the "
-        "implementation only — partial. Every cut offset of small files and every field boundary ±1 of large ones is read through both readers and three cache states.",
-   technique="Lean 4 proof (generic truncation argument over reader programs) + exhaustive cut-offset enumeration on the implementation",
+        "also through the stream route without a window (truncated_rejected_stream_full); appended bytes do not change the result (trailing_ignored). Windowed stream clause: whenever a windowed stream read of a "
+        "prefix returns, it returns exactly what a read of the complete bytes with that window returns (truncated_window_stream, truncated_window_stream_slice) — by sr_agree, a two-run agreement between the stream "
+        "reader on a prefix and the buffer reader on any extension, for every core program that does not ask how much data follows. Partial: that clause is proved for a cold header cache (the other cache states, "
+        "and 'the prefix read raises when the intact read raises', are decided on the implementation). Every cut offset of small files and every field boundary ±1 of large ones is read through both readers and three cache states.",
+   technique="Lean 4 proof (generic truncation argument over reader programs; two-run agreement of the stream reader on a prefix with the buffer reader on the file) + exhaustive cut-offset enumeration on the implementation",
    design="§5 C07"),
  "C08": dict(
    text="Theorems (Props/C08.lean) over a nested-array model of the three body classes: the three constructors produce the same body from the same data (backends_agree); torch()/tensorflow() conversion of a consistent NumPy body is the identity "
